@@ -78,6 +78,30 @@ where
     }
 }
 
+#[cfg(feature = "verif_hooks")]
+impl<W> LzAccumBuffer<W>
+where
+    W: io::Write,
+{
+    /// Verification hook: feed the complete window state (not the sink) into `h`.
+    pub fn verif_hash_state<H: std::hash::Hasher>(&self, h: &mut H) {
+        h.write_usize(self.buf.len());
+        h.write(self.buf.as_slice());
+        h.write_usize(self.memlimit);
+        h.write_usize(self.len);
+    }
+
+    /// Verification hook: number of history bytes currently buffered.
+    pub fn verif_buf_len(&self) -> usize {
+        self.buf.len()
+    }
+
+    /// Verification hook: read access to the sink.
+    pub fn verif_sink(&self) -> &W {
+        &self.stream
+    }
+}
+
 impl<W> LzBuffer<W> for LzAccumBuffer<W>
 where
     W: io::Write,
@@ -218,6 +242,32 @@ where
         }
         self.buf[index] = value;
         Ok(())
+    }
+}
+
+#[cfg(feature = "verif_hooks")]
+impl<W> LzCircularBuffer<W>
+where
+    W: io::Write,
+{
+    /// Verification hook: feed the complete window state (not the sink) into `h`.
+    pub fn verif_hash_state<H: std::hash::Hasher>(&self, h: &mut H) {
+        h.write_usize(self.buf.len());
+        h.write(self.buf.as_slice());
+        h.write_usize(self.dict_size);
+        h.write_usize(self.memlimit);
+        h.write_usize(self.cursor);
+        h.write_usize(self.len);
+    }
+
+    /// Verification hook: number of history bytes currently buffered.
+    pub fn verif_buf_len(&self) -> usize {
+        self.buf.len()
+    }
+
+    /// Verification hook: read access to the sink.
+    pub fn verif_sink(&self) -> &W {
+        &self.stream
     }
 }
 
